@@ -330,11 +330,21 @@ func c03Run(c *fw.Ctx) {
 				}
 			}
 		}
-		runCase(cs, true)
+		direct := func(cs c03Case) {
+			c.Eval()
+			c.Nontrivial()
+			if clause, detail := c03Check(cs); clause != "" {
+				if len(detail) > 500 {
+					detail = detail[:500] + "..."
+				}
+				c.Violation("C03|size-ladder|"+clause, fmt.Sprintf("PING, ECHO <%d bytes>, SET k <%d bytes>, ECHO x (splits %v stride %d): %s", L, L, cs.Splits, cs.Stride, detail), cs)
+			}
+		}
+		direct(cs)
 		for _, k := range sortedInts(cand) {
 			cc := cs
 			cc.Splits = []int{k}
-			runCase(cc, true)
+			direct(cc)
 		}
 		for _, st := range []int{1, 3, 4096, 32768} {
 			if st == 1 && L > 20000 && c.Quick() {
@@ -342,7 +352,43 @@ func c03Run(c *fw.Ctx) {
 			}
 			cc := cs
 			cc.Stride = st
-			runCase(cc, true)
+			direct(cc)
+		}
+	}
+	// arity ladder: one request with N arguments between two small ones
+	for _, n := range []int{255, 256, 257, 1023, 1024, 1025, 1500, 4097} {
+		for _, form := range []string{"DEL", "MGET", "MSET", "SADD", "RPUSH", "HMSET", "ZADD"} {
+			if !c.Mine() {
+				continue
+			}
+			args := []string{form}
+			switch form {
+			case "SADD", "RPUSH", "HMSET", "ZADD":
+				args = append(args, "k")
+			}
+			for i := 0; i < n; i++ {
+				switch form {
+				case "MSET", "HMSET":
+					args = append(args, fmt.Sprintf("f%d", i), "v")
+				case "ZADD":
+					args = append(args, fmt.Sprint(i), fmt.Sprintf("m%d", i))
+				default:
+					args = append(args, fmt.Sprintf("e%d", i))
+				}
+			}
+			cs := c03Case{Requests: [][]byte{grammar.Encode([]string{"PING"}), grammar.Encode(args), grammar.Encode([]string{"ECHO", "x"})},
+				Labels: []string{"PING|valid", fmt.Sprintf("%s|arity-%d", form, n), "ECHO|valid"}}
+			for _, stride := range []int{0, 4096} {
+				cs.Stride = stride
+				c.Eval()
+				c.Nontrivial()
+				if clause, detail := c03Check(cs); clause != "" {
+					if len(detail) > 500 {
+						detail = detail[:500] + "..."
+					}
+					c.Violation("C03|"+form+"|arity-ladder|"+clause, fmt.Sprintf("%s with %d elements between PING and ECHO: %s", form, n, detail), cs)
+				}
+			}
 		}
 	}
 	// the same request twice (and once more behind another request) against the
@@ -414,7 +460,7 @@ func init() {
 	fw.Register(&fw.Prop{
 		ID:    "C03",
 		Level: "exploration",
-		Rule:  "request catalogue from the independent grammar: every registered command with its valid shapes (each option word at least once, list arities 1..3, lower-case name), one surplus-argument shape, every ill-formed shape of C10, unknown commands, handler errors, QUIT variants. Pipelines: every single request; all ordered pairs and triples over one representative per executor family + QUIT + unknown + argument error + handler error. Delivery: whole, EVERY 2-way split, 1-byte (singles, pairs; triples: whole, request-aligned, 1-byte; thorough: every 2-way split too, and all pipelines of four representatives whole, request-aligned and 1-byte). The reply/liveness invariant (#complete replies written == #complete requests delivered, in order, replies equal to the request's solo reply) is evaluated at every transport Read and at end of stream; a loop-iteration budget turns a spin into a verdict. Size ladder: the pipeline PING, ECHO <L bytes>, SET k <L bytes>, ECHO x for L = 2^k-1, 2^k, 2^k+1 (k=6..16, thorough 17) and 10^k-1..10^k+1 with frame-looking content: whole, every 2-way split within 8 bytes of each structural position (request boundaries, start and end of the large payload), strides 1/3/4096/32768. Repeat part: every catalogue request (plus KEYS/SCAN MATCH with ill-formed and valid glob patterns) three times on one connection (X X PING X) against the bundled example store holding three elements per type, whole and 1-byte: one well-formed reply per request, PING answered at its position.",
+		Rule:  "request catalogue from the independent grammar: every registered command with its valid shapes (each option word at least once, list arities 1..3, lower-case name), one surplus-argument shape, every ill-formed shape of C10, unknown commands, handler errors, QUIT variants. Pipelines: every single request; all ordered pairs and triples over one representative per executor family + QUIT + unknown + argument error + handler error. Delivery: whole, EVERY 2-way split, 1-byte (singles, pairs; triples: whole, request-aligned, 1-byte; thorough: every 2-way split too, and all pipelines of four representatives whole, request-aligned and 1-byte). The reply/liveness invariant (#complete replies written == #complete requests delivered, in order, replies equal to the request's solo reply) is evaluated at every transport Read and at end of stream; a loop-iteration budget turns a spin into a verdict. Size ladder: the pipeline PING, ECHO <L bytes>, SET k <L bytes>, ECHO x for L = 2^k-1, 2^k, 2^k+1 (k=6..16, thorough 17) and 10^k-1..10^k+1 with frame-looking content: whole, every 2-way split within 8 bytes of each structural position (request boundaries, start and end of the large payload), strides 1/3/4096/32768. Arity ladder: DEL/MGET/MSET/SADD/RPUSH/HMSET/ZADD with 255..4097 elements between PING and ECHO. Repeat part: every catalogue request (plus KEYS/SCAN MATCH with ill-formed and valid glob patterns) three times on one connection (X X PING X) against the bundled example store holding three elements per type, whole and 1-byte: one well-formed reply per request, PING answered at its position.",
 		Assumptions: []string{
 			"replies are compared with the reply the same request gets when sent alone (stateless recording double with content-derived tokens)",
 			"pipelines longer than 3 are not explored",
